@@ -245,6 +245,10 @@ C["C01"]["harnesses"] += [SWE]
 C["C19"]["harnesses"] += [h for h in C["C13"]["harnesses"] if h["fn"] == "ZZMetadataAdopt"]
 C["C19"]["assumptions"] += ["magnet metadata adoption: info dictionary parser replaced by parses-or-not with an arbitrary private flag"]
 
+C["C06"]["harnesses"] += [
+    H("ZZParseInfoLimits", "torrent", "Session.parseInfo (resume data / peer-supplied info) on an arbitrary decoded dictionary (<=2 files, <=3 piece hashes, symbolic lengths), resume version 0..4, piece-count limit 0..3: rejected, or positive piece length, 1..MaxPieces pieces, known version", T(40, 900, flags=["-nospawn"]), T(40, 900, flags=["-nospawn"]), replay="model"),
+]
+
 for pid, spec in C.items():
     spec = dict(property=pid, **spec)
     json.dump(spec, open(os.path.join(D, pid + ".json"), "w"), indent=1)
